@@ -160,6 +160,24 @@ theorem unread_untouched (pre rest rest' : List (Frame R)) (b : List Nat)
   subst this
   exact (ok_iff validate T k _ b rest').mpr ⟨pre, rfl, h2, h3, h4⟩
 
+/-- (8') A failure once reported does not depend on what the venue would have sent afterwards (only
+`ended` does: more input may follow). -/
+theorem error_is_final (frames more : List (Frame R)) (e : ValErr) (he : e ≠ .ended)
+    (h : run validate T k {} frames = .error e) :
+    run validate T k {} (frames ++ more) = .error e := by
+  obtain ⟨pre, h1, h2, h3⟩ := (err_iff validate T k frames e).mp h
+  rcases h3 with ⟨_, h4⟩ | ⟨f, tl, hf, hfat⟩
+  · exact absurd h4 he
+  · rw [err_iff]
+    exact ⟨pre, h1, h2, Or.inr ⟨f, tl ++ more, by simp [hf], hfat⟩⟩
+
+/-- (8'') Pings and pongs are invisible apart from re-arming the timer: on an input without silences,
+deleting them changes neither the verdict nor the buffer nor (up to the same deletion) the unread rest. -/
+theorem pings_invisible (frames : List (Frame R)) (hw : NoWaits frames) :
+    run validate T k {} (frames.filter notSkip)
+      = (run validate T k {} frames).map (fun p => (p.1, p.2.filter notSkip)) :=
+  run_filter_skip validate T k frames hw {}
+
 /-- (9) A timeout is reported only at a wait that completes a silence of at least `T` since the last item
 the socket yielded (any item: the code re-arms its `sleep` on every loop iteration). -/
 theorem timeout_only_after_silence (frames : List (Frame R))
